@@ -596,6 +596,11 @@ func genPlan(g *prng, flavour string) sessPlan {
 			p.closer = fmt.Sprintf("ext%d", 1-p.stallRx)
 			p.closers = 1
 		}
+		if g.chance(1, 2) {
+			// a request for an unknown method arrives while the writer is stuck: the receive loop's own error reply
+			// (whose context nothing cancels) queues up behind the blocked Write
+			p.inject = []string{fmt.Sprintf("nfcall@%d", 1-p.stallRx)}
+		}
 	case "burst":
 		// overlapping notification / call handlers in one direction, finishing in every order
 		ep := g.intn(2)
